@@ -38,17 +38,17 @@ type RuleStat struct {
 }
 
 type Ctx struct {
-	P        *Prog
-	Fx       *Facts
-	Prop     string
-	Tier     string
-	Obs      []Obligation
-	Rules    map[string]*RuleStat
-	FuncsSet map[string]bool
-	Sites    int
-	Notes    []string
+	P          *Prog
+	Fx         *Facts
+	Prop       string
+	Tier       string
+	Obs        []Obligation
+	Rules      map[string]*RuleStat
+	FuncsSet   map[string]bool
+	Sites      int
+	Notes      []string
 	NotDecided string
-	Explain  string
+	Explain    string
 }
 
 func newCtx(p *Prog, prop, tier string) *Ctx {
